@@ -143,4 +143,31 @@ theorem C05_union_xor_same_subdivision_of_operands (ar : Arith) (cfg : Cfg) (a b
   rw [C05_fillQueue_same_for_symmetric_ops a b .union .xor (by decide) (by decide)]
   exact C05_union_xor_same_subdivision ar cfg _ sb cb
 
+/-- C05, third anchor (operation-dependent early termination), all four operations: one iteration of the
+    loop on states that differ only in the operation-dependent fields, under any two operations whose exit
+    test does not fire at this event, fails identically or leaves states that again differ only in those
+    fields (same queue, sweep line, `sorted_events`, counts).  So all four sweeps of one operand pair perform
+    the same steps until an exit test fires … -/
+theorem C05_step_same_until_exit (ar : Arith) (cfg : Cfg) (op op' : Op) (rb sx : Rat)
+    {st st' : SwSt} (h : sSw st = sSw st') (event : Nat)
+    (hx : exitsAt op rb sx st.arena[event]!.point = false)
+    (hx' : exitsAt op' rb sx st'.arena[event]!.point = false) :
+    exMap (fun r : Bool × SwSt => (r.1, sSw r.2)) (sweepStep ar cfg op rb sx st event)
+      = exMap (fun r : Bool × SwSt => (r.1, sSw r.2)) (sweepStep ar cfg op' rb sx st' event) :=
+  sweepStep_rel_of_no_exit ar cfg op op' rb sx h event hx hx'
+
+/-- … and when it fires the iteration records the event and breaks, touching nothing else: the run of
+    intersection / difference is the common run cut off at that event. -/
+theorem C05_step_exit (ar : Arith) (cfg : Cfg) (op : Op) (rb sx : Rat) (st : SwSt) (event : Nat)
+    (hx : exitsAt op rb sx st.arena[event]!.point = true) :
+    sweepStep ar cfg op rb sx st event = .ok (true, { st with sorted := st.sorted.push event }) :=
+  sweepStep_exit ar cfg op rb sx st event hx
+
+/-- the exit test can fire for intersection and difference only -/
+theorem C05_exit_only_intersection_difference (op : Op) (rb sx : Rat) (p : Pt) (h : exitsAt op rb sx p = true) :
+    op = .intersection ∨ op = .difference := by
+  cases op <;> simp [exitsAt] at h ⊢
+
+example : exitsAt .intersection 1 5 ⟨2, 0⟩ = true ∧ exitsAt .difference 1 5 ⟨2, 0⟩ = false := by decide +kernel
+
 end Gbo.Props
